@@ -18,6 +18,7 @@ func genCase(t *rapid.T) Case {
 	c := Case{Limit: rapid.SampledFrom([]int{64, 256, 4096, 1 << 16}).Draw(t, "limit")}
 	c.Auth = script.AuthSpec{User: rapid.SampledFrom([]string{"alice", "", "bob", "é"}).Draw(t, "auth-user"), Pass: rapid.SampledFrom([]string{"secret", "", "pässword", "p w"}).Draw(t, "auth-pass"), FailPass: "boom", PanicPass: "kaboom", FailErr: gen.SmallErr().Draw(t, "fail-err")}
 	c.Auth.FailTrue = rapid.Bool().Draw(t, "validator-fails-with-true")
+	c.Auth.NilCtx = rapid.IntRange(0, 2).Draw(t, "validator-returns-nil-context") == 0
 	c.Neighbour = rapid.SampledFrom([]string{"", "", "", "before", "between", "between"}).Draw(t, "neighbour")
 	c.NMW = rapid.IntRange(0, 3).Draw(t, "nmw")
 	c.OptSeed = rapid.IntRange(0, 1000).Draw(t, "option-order")
